@@ -447,6 +447,10 @@ def _accumulates_whole_row(ctx, f, name):
                     if l["k"] == "ref" and l["name"] == name and "vbi_unpar8" in atoms.Operand(f, e["c"][1]).calls:
                         if loops.innermost(f, b) != head:
                             continue
+                        okc, how = loops.covers(an, f, head, body, 40)
+                        if okc and how in atoms.Operand(f, e["c"][1]).locals:
+                            ok_or = True
+                            continue
                         # loop runs i = 0 .. 39
                         t = f.blocks[head].term
                         if t and "cond" in t:
